@@ -27,7 +27,8 @@ ASSUMPTIONS = [
 ]
 FLOORS = {'countif_cases': 1000, 'countifs_cases': 200, 'match_cases': 500,
           'vlookup_cases': 500, 'choose_cases': 100,
-          'operator_prefixes_seen': 6, 'library_calls': 500}
+          'operator_prefixes_seen': 6, 'library_calls': 500,
+          'countifs_rectangles': 100, 'choose_with_ranges': 100}
 ANCHOR_FUNCS = {
     'xlcalculator/xlfunctions/lookup.py': ['MATCH', 'VLOOKUP', 'CHOOSE'],
     'xlcalculator/xlfunctions/statistics.py': ['COUNTIF', 'COUNTIFS'],
@@ -241,6 +242,32 @@ def run(ctx):
                'nt': ('COUNTIFS', k, tuple(c[0] for c in crits), count > 0),
                'data': cols, 'group': f'COUNTIFS:{k}'})
         B.maybe_flush()
+        # ---- COUNTIFS over rows and rectangles (read row by row) ---------------------
+        rows_, cols_ = rng.choice([(1, 4), (1, 6), (2, 3), (3, 2), (2, 2),
+                                   (4, 1)])
+        n2 = rows_ * cols_
+        k2 = rng.randint(2, 3)
+        flats = [[rng.choice([1, 2, 3, 5, -1, 10]) if rng.random() < 0.7 or
+                  j == 0 else rng.choice(WORDS[:5]) for _ in range(n2)]
+                 for j in range(k2)]
+        rgs2 = [B.place([f[r * cols_:(r + 1) * cols_] for r in range(rows_)])
+                for f in flats]
+        crits2 = []
+        for f in flats:
+            crits2.append((rng.choice(OPS), rng.choice(f)
+                           if rng.random() < 0.8 else rng.choice([2, -1])))
+        count2 = sum(1 for i in range(n2)
+                     if all(crit_holds(flats[j][i], *crits2[j])
+                            for j in range(k2)))
+        args2 = ','.join(f'{rgs2[j]},{subject.lit(crit_text(*crits2[j]))}'
+                         for j in range(k2))
+        B.add(f'=COUNTIFS({args2})',
+              {'want': ('num', float(count2)), 'counter': 'countifs_cases',
+               'nt': ('COUNTIFS-2d', rows_, cols_, k2,
+                      tuple(c[0] for c in crits2), count2 > 0),
+               'data': flats, 'group': f'COUNTIFS-2d:{rows_}x{cols_}:{k2}'})
+        ctx.event('countifs_rectangles')
+        B.maybe_flush()
         # ---- MATCH exact ----------------------------------------------------------
         col = gen_column(rng.choice(['num', 'text']))
         rg = B.place([[v] for v in col])
@@ -342,6 +369,30 @@ def run(ctx):
                                   ('neg' if i < 0 else 'beyond'))),
                           'data': vals, 'group': 'CHOOSE:' + (
                               'in' if 1 <= i <= n else 'out')})
+        # CHOOSE among values that are ranges: the index counts ARGUMENTS
+        nv = rng.randint(1, 3)
+        rg_a = B.place([[rng.randint(1, 9)] for _ in range(3)])
+        rg_b = B.place([[rng.randint(1, 9), rng.randint(1, 9)]])
+        scal = [rng.randint(10, 99) for _ in range(nv)]
+        layouts = [[rg_a] + [subject.lit(v) for v in scal],
+                   [subject.lit(v) for v in scal] + [rg_b],
+                   [rg_a, rg_b] + [subject.lit(v) for v in scal]]
+        vals_ = rng.choice(layouts)
+        nargs = len(vals_)
+        for i in list(range(1, nargs + 1)) + [nargs + 1, nargs + 2,
+                                              nargs + 3]:
+            if 1 <= i <= nargs and ':' in vals_[i - 1]:
+                continue        # the value is a range: not a scalar result
+            want = ('num', float(vals_[i - 1])) if i <= nargs \
+                else ('err', '#VALUE!')
+            B.add(f'=CHOOSE({i},' + ','.join(vals_) + ')',
+                  {'want': want, 'counter': 'choose_cases',
+                   'nt': ('CHOOSE-ranges', nargs, 'in' if i <= nargs
+                          else 'beyond', i - nargs),
+                   'data': vals_, 'group': 'CHOOSE-ranges:' + (
+                       'in' if i <= nargs else 'out')})
+            ctx.event('choose_with_ranges')
+        B.maybe_flush()
     B.flush()
     ctx.data['ops'] = sorted(ops_seen - {''})
 
